@@ -31,6 +31,8 @@ def run(ctx):
         e["t"] = 100
     t = bc.record(ctx, binp, 25 if q else 400, "c16", focus="c16") + g
     vlib.note_events(ctx, t)
+    vlib.call_history_model(ctx)
+    vlib.call_histories(ctx, binp, t, ["bech32.Decode"], "Bech32Trace", "Decode accepted a string with 1..4 substituted characters")
     bc.judge(ctx, binp, t, "real polymod differs from the specification's, or Decode accepted a string with 1..4 substituted characters")
     return vlib.finish(ctx, LEVEL, RULE, bc.ASSUME, matchers=bc.MATCHERS,
                        technique="TLA+ spec BchDistance: syndrome distinctness decided by TLC state counting (complete); real polymod and Decode bound by trace validation")
